@@ -404,6 +404,104 @@ MUTANTS = [
     M("benign-ks-callback-renamed", UP,
       "            ciphertext_accum.extend(size, ct)\n        d.addCallback(_good)\n",
       "            ciphertext_accum.extend(size, ct)\n        _encrypt_chunk = _good\n        d.addCallback(_encrypt_chunk)\n", None),
+    # -- C44.11 one consumer per stateful uploadable
+    M("fallback-direct-upload-on-same-eu", UP,
+      "                    d2.addCallback(lambda si: uploader.start(eu, si))\n",
+      "                    d2.addCallback(lambda si: uploader.start(eu, si))\n"
+      "                    def _helper_failed(f):\n"
+      "                        self.log(\"helper-assisted upload failed, falling back to a direct upload\",\n"
+      "                                 failure=f, level=log.UNUSUAL)\n"
+      "                        direct = CHKUploader(storage_broker, self.parent._secret_holder, reactor=reactor)\n"
+      "                        self._all_uploads[direct] = None\n"
+      "                        return direct.start(eu)\n"
+      "                    d2.addErrback(_helper_failed)\n", "C44.11"),
+    M("fallback-rewraps-the-consumed-uploadable", UP,
+      "                    d2.addCallback(lambda si: uploader.start(eu, si))\n",
+      "                    d2.addCallback(lambda si: uploader.start(eu, si))\n"
+      "                    d2.addErrback(lambda f: CHKUploader(storage_broker, self.parent._secret_holder).start(\n"
+      "                        EncryptAnUploadable(uploadable, self._parentmsgid)))\n", "C44.11"),
+    M("direct-upload-retried-once", UP,
+      "                    d2.addCallback(lambda x: uploader.start(eu))\n",
+      "                    d2.addCallback(lambda x: uploader.start(eu))\n"
+      "                    d2.addErrback(lambda f: uploader.start(eu))\n", "C44.11"),
+    M("assisted-recontacts-helper-on-failure", UP,
+      "        d = self._helper.callRemote(\"upload_chk\", self._storage_index)\n        d.addCallback(self._contacted_helper)\n",
+      "        d = self._helper.callRemote(\"upload_chk\", self._storage_index)\n        d.addCallback(self._contacted_helper)\n"
+      "        d.addErrback(lambda f: self._helper.callRemote(\"upload_chk\", self._storage_index)\n"
+      "                     .addCallback(self._contacted_helper))\n", "C44.11"),
+    M("assisted-ciphertext-upload-retried", UP,
+      "            d.addCallback(lambda ignored:\n                          upload_helper.callRemote(\"upload\", reu))\n",
+      "            d.addCallback(lambda ignored:\n                          upload_helper.callRemote(\"upload\", reu))\n"
+      "            d.addErrback(lambda f: upload_helper.callRemote(\"upload\", reu))\n", "C44.11"),
+    M("benign-helper-failure-logged", UP,
+      "                    d2.addCallback(lambda si: uploader.start(eu, si))\n",
+      "                    d2.addCallback(lambda si: uploader.start(eu, si))\n"
+      "                    def _helper_failed(f):\n"
+      "                        self.log(\"helper-assisted upload of %s failed\" % (eu,), failure=f, level=log.UNUSUAL)\n"
+      "                        return f\n"
+      "                    d2.addErrback(_helper_failed)\n", None),
+    M("benign-ciphertext-upload-addcallbacks", UP,
+      "            d.addCallback(lambda ignored:\n                          upload_helper.callRemote(\"upload\", reu))\n",
+      "            d.addCallbacks(lambda ignored: upload_helper.callRemote(\"upload\", reu),\n"
+      "                           lambda f: f)\n", None),
+    M("benign-encrypted-uploadable-alias", UP,
+      "        d = self.start_encrypted(eu)\n        def _done(uploadresults):\n",
+      "        encrypted = eu\n        d = self.start_encrypted(encrypted)\n        def _done(uploadresults):\n", None),
+    # -- C44.12 the need-upload decision rests on this call's grid check
+    M("recent-miss-cache-skips-check", OFF,
+      "            return (None, uh)\n\n        d = self._check_chk(storage_index, lp)\n",
+      "            return (None, uh)\n\n        if time.time() - self._recent_misses.get(storage_index, 0) < 300:\n"
+      "            return self._did_chk_check(None, storage_index, lp)\n\n        d = self._check_chk(storage_index, lp)\n",
+      "C44.12",
+      edits=[(OFF, "        self._active_uploads = {}\n", "        self._active_uploads = {}\n        self._recent_misses = {}\n"),
+             (OFF, "        def _checked(res):\n            if res:\n",
+              "        def _checked(res):\n            if not res:\n                self._recent_misses[storage_index] = time.time()\n"
+              "            if res:\n")]),
+    M("recent-miss-cache-inside-check", OFF,
+      "        sb = self._storage_broker\n        c = self.chk_checker(sb.get_servers_for_psi, storage_index, lp2)\n",
+      "        if time.time() - self._recent_misses.get(storage_index, 0) < 300:\n            return defer.succeed(None)\n"
+      "        sb = self._storage_broker\n        c = self.chk_checker(sb.get_servers_for_psi, storage_index, lp2)\n",
+      "C44.12",
+      edits=[(OFF, "        self._active_uploads = {}\n", "        self._active_uploads = {}\n        self._recent_misses = {}\n"),
+             (OFF, "        def _checked(res):\n            if res:\n",
+              "        def _checked(res):\n            if not res:\n                self._recent_misses[storage_index] = time.time()\n"
+              "            if res:\n")]),
+    M("partial-ciphertext-on-disk-skips-check", OFF,
+      "            return (None, uh)\n\n        d = self._check_chk(storage_index, lp)\n",
+      "            return (None, uh)\n\n"
+      "        if os.path.exists(os.path.join(self._chk_incoming, si_b2a(storage_index).decode('ascii'))):\n"
+      "            # a client resuming an interrupted transfer\n"
+      "            uh = self._make_chk_upload_helper(storage_index, lp)\n"
+      "            self._active_uploads[storage_index] = uh\n            self._add_upload(uh)\n"
+      "            return (None, uh)\n\n        d = self._check_chk(storage_index, lp)\n", "C44.12"),
+    M("check-deferred-replaced-by-remembered-miss", OFF,
+      "        d = self._check_chk(storage_index, lp)\n        d.addCallback(self._did_chk_check, storage_index, lp)\n",
+      "        if storage_index in self._recent_misses:\n            d = defer.succeed(None)\n        else:\n"
+      "            d = self._check_chk(storage_index, lp)\n        d.addCallback(self._did_chk_check, storage_index, lp)\n",
+      "C44.12",
+      edits=[(OFF, "        self._active_uploads = {}\n", "        self._active_uploads = {}\n        self._recent_misses = set()\n")]),
+    M("remembered-results-reported-as-present", OFF,
+      "            return (already_present, None)\n",
+      "            self._recent_hits[storage_index] = already_present\n            return (already_present, None)\n"
+      "        if storage_index in self._recent_hits:\n            return (self._recent_hits[storage_index], None)\n",
+      "C44.12",
+      edits=[(OFF, "        self._active_uploads = {}\n", "        self._active_uploads = {}\n        self._recent_hits = {}\n")]),
+    M("benign-decision-link-as-lambda", OFF,
+      "        d.addCallback(self._did_chk_check, storage_index, lp)\n",
+      "        d.addCallback(lambda found: self._did_chk_check(found, storage_index, lp))\n", None),
+    M("benign-check-deferred-renamed", OFF,
+      "        d = self._check_chk(storage_index, lp)\n        d.addCallback(self._did_chk_check, storage_index, lp)\n",
+      "        checking = self._check_chk(storage_index, lp)\n        d = checking\n"
+      "        d.addCallback(self._did_chk_check, storage_index, lp)\n", None),
+    M("benign-active-upload-by-get", OFF,
+      "        if storage_index in self._active_uploads:\n            self.log(\"upload is currently active\", parent=lp)\n"
+      "            uh = self._active_uploads[storage_index]\n            return (None, uh)\n",
+      "        uh = self._active_uploads.get(storage_index)\n        if uh is not None:\n"
+      "            self.log(\"upload is currently active\", parent=lp)\n            return (None, uh)\n", None),
+    M("benign-checker-hoisted", OFF,
+      "        c = self.chk_checker(sb.get_servers_for_psi, storage_index, lp2)\n        d = c.check()\n",
+      "        checker = self.chk_checker(sb.get_servers_for_psi, storage_index, lp2)\n        c = checker\n        d = c.check()\n",
+      None),
     # -- vanished anchor
     M("vanish-start-reading", OFF, "    def _start_reading(self, res):", "    def _start_readingX(self, res):", "ANALYSIS-ERROR"),
 ]
